@@ -1,6 +1,7 @@
 """Regenerate every Gen/* Lean file from /repo (used by MANIFEST.setup_cmd before the first lake build)."""
-from tools.translate import gen_panel
+from tools.translate import gen_panel, gen_conn
 
 if __name__ == '__main__':
     gen_panel.translate_all()
+    gen_conn.translate_all()
     print('generated')
